@@ -773,7 +773,7 @@ func init() {
 	register(&Prop{
 		ID: "C12", Engine: "client",
 		Generate: genC12, Decode: decodeC12, Execute: execC12,
-		Config:      func(any) simrt.Config { return simrt.Config{MaxSteps: 100000, IdleProbe: 5 * time.Second} },
+		Config:      func(any) simrt.Config { return simrt.Config{MaxSteps: 60000, IdleProbe: 5 * time.Second} },
 		Runs:        clientRuns(250000, 10000000),
 		Floors:      []Floor{{Name: "single-substitution", Count: func(t string) int { return len(c12Floor(t)) }, Scenario: func(t string, i int) any { return c12Floor(t)[i] }}},
 		Rule:        "one evaluation = one simulated connection in which the scripted server answers one representative call of a fluent-API operation (27 call kinds + raw Request + batches, optionally preceded by the discovery exchange) with a response falsified by 0-3 substitutions (counts, item operation, status, reason, message, payload type/presence, ids); distinct = distinct event-log hashes among runs in which a substituted response was actually sent",
